@@ -335,12 +335,25 @@ pub fn scenarios(rng: &mut StdRng, quick: bool) -> Vec<Scenario> {
             }
         }
     }
+    // reads that open table files for the first time, several at the same instant
+    for n in [2usize, 3] {
+        for reuse in [false, true] {
+            out.push(Scenario {
+                name: format!("coldopen@size#{}/{}", n, if reuse { "reuse" } else { "fresh" }),
+                victim: Victim::Get { k: 1 },
+                point: "size".to_string(),
+                nth: n,
+                script: "cold_open".to_string(),
+                memtable: if reuse { 1 } else { 0 },
+            });
+        }
+    }
     if quick {
         // keep all reader scenarios and a random half of the writer ones
         let n = out.len();
         let mut keep = vec![];
         for (i, s) in out.into_iter().enumerate() {
-            if i < 24 || rng.gen_bool(0.6) || i + 3 > n {
+            if i < 24 || rng.gen_bool(0.6) || i + 5 > n {
                 keep.push(s);
             }
         }
@@ -355,7 +368,168 @@ pub struct SchedOutcome {
     pub status: String,
 }
 
+/// Several threads read keys that live in different table files right after the database was
+/// reopened (nothing is cached): the threads are lined up at the size query inside Table::open
+/// and let go together, so that the table-cache / block-cache bookkeeping of the opens races.
+fn run_cold_open(sc: &Scenario, seed: u64, run_no: u64) -> SchedOutcome {
+    let u = Arc::new(Universe::plain(6));
+    let sink = TraceSink::new(Arc::clone(&u));
+    let fs = SimFs::new(ROOT);
+    let ctl = Ctl::new();
+    let install = |sink: &Arc<TraceSink>, ctl: &Arc<Ctl>| {
+        raindb::verif::install(
+            ROOT,
+            Arc::new(SinkObserver {
+                sink: Arc::clone(sink),
+                want_contents: false,
+                ctl: Some(ctl.clone() as Arc<dyn Controller>),
+                lazy_gets: Mutex::new(Default::default()),
+                bg_active: std::sync::atomic::AtomicBool::new(true),
+                mute: vec![
+                    "GetDone",
+                    "IterDrop",
+                    "IterDropped",
+                    "BgBegin",
+                    "BgEnd",
+                    "ObsoleteCollected",
+                    "OutputOpened",
+                    "FlushBuilt",
+                ],
+            }),
+        );
+    };
+    install(&sink, &ctl);
+    take_panics();
+    sink.emit_json(
+        "Reset",
+        json!({"run": run_no, "seed": seed, "nk": u.n(), "driver": "sched", "tag": sc.name}),
+    );
+    let opts = OptSet {
+        memtable: 4000,
+        file: 600,
+        block: 64,
+        reuse: sc.memtable == 1,
+    };
+    let mut status = "ok".to_string();
+    let fail = |sink: &Arc<TraceSink>, what: String| {
+        sink.emit_json("Hang", json!({ "what": what }));
+        SchedOutcome {
+            lines: sink.take(),
+            parked: false,
+            status: "openfail".into(),
+        }
+    };
+    let db = match DB::open(opts.to_options(ROOT, &fs)) {
+        Ok(db) => Arc::new(db),
+        Err(e) => return fail(&sink, format!("open failed {}", e)),
+    };
+    let next_vid = {
+        let env = Env {
+            db: Arc::clone(&db),
+            sink: Arc::clone(&sink),
+            u: Arc::clone(&u),
+            ctl: ctl.clone(),
+            next_vid: Mutex::new(0),
+        };
+        // one table file per key (values of 300 bytes against 600-byte files), then everything
+        // merged into level 1 or deeper: the files do not overlap
+        for k in 1..=6 {
+            env.put(k, 300);
+            let _ = db.verif_force_flush();
+        }
+        let _ = wait_quiescent(&db, Duration::from_secs(20));
+        db.compact_range(None..None);
+        let _ = wait_quiescent(&db, Duration::from_secs(20));
+        let v = *env.next_vid.lock();
+        v
+    };
+    match Arc::try_unwrap(db) {
+        Ok(db) => drop(db),
+        Err(_) => return fail(&sink, "handle still shared".into()),
+    }
+    raindb::verif::clear(ROOT);
+    install(&sink, &ctl);
+    let db = match DB::open(opts.to_options(ROOT, &fs)) {
+        Ok(db) => Arc::new(db),
+        Err(e) => return fail(&sink, format!("reopen failed {}", e)),
+    };
+    let _ = wait_quiescent(&db, Duration::from_secs(20));
+    let env = Arc::new(Env {
+        db: Arc::clone(&db),
+        sink: Arc::clone(&sink),
+        u: Arc::clone(&u),
+        ctl: ctl.clone(),
+        next_vid: Mutex::new(next_vid),
+    });
+    let n = sc.nth;
+    fs.set_rendezvous("size", n, 300);
+    let mut rxs = vec![];
+    for i in 0..n {
+        let e2 = Arc::clone(&env);
+        let name = format!("r{}", i + 1);
+        // keys far apart: different files
+        let k = 1 + ((i as i64) * 5) / ((n as i64) - 1).max(1);
+        rxs.push((
+            name.clone(),
+            spawn_named(&name, move || {
+                e2.get(k);
+            }),
+        ));
+    }
+    for (name, rx) in rxs {
+        if rx.recv_timeout(Duration::from_secs(20)).is_err() {
+            sink.emit_json("Hang", json!({"what": format!("cold reader {}", name)}));
+            status = "hang".into();
+        }
+    }
+    let met = fs.set_rendezvous("size", 0, 0);
+    if status == "ok" {
+        // whatever the racing opens left in the caches is used from now on
+        for _ in 0..2 {
+            for k in 1..=6 {
+                env.get(k);
+            }
+        }
+        env.scan(false, false);
+        env.put(3, 40);
+        env.get(3);
+        let _ = wait_quiescent(&db, Duration::from_secs(20));
+    }
+    for p in peek_panics() {
+        sink.emit_json(
+            "Panic",
+            json!({"thread": p.thread, "msg": p.message, "loc": p.location}),
+        );
+        status = "panic".into();
+    }
+    take_panics();
+    drop(env);
+    if status == "ok" {
+        match Arc::try_unwrap(db) {
+            Ok(db) => {
+                let rx = spawn_named("closer", move || drop(db));
+                if rx.recv_timeout(Duration::from_secs(20)).is_err() {
+                    sink.emit_json("Hang", json!({"what": "close"}));
+                    status = "hang".into();
+                }
+            }
+            Err(db) => std::mem::forget(db),
+        }
+    } else {
+        std::mem::forget(db);
+    }
+    raindb::verif::clear(ROOT);
+    SchedOutcome {
+        lines: sink.take(),
+        parked: met > 0,
+        status,
+    }
+}
+
 pub fn run_scenario(sc: &Scenario, seed: u64, run_no: u64) -> SchedOutcome {
+    if sc.script == "cold_open" {
+        return run_cold_open(sc, seed, run_no);
+    }
     let u = Arc::new(Universe::plain(6));
     let sink = TraceSink::new(Arc::clone(&u));
     let fs = SimFs::new(ROOT);
